@@ -64,6 +64,21 @@ def signature(cfgname, script, upto_event, ev):
     return dict(cipher=cipher, ev=ev["ev"], got=ev.get("exc") or "sent")
 
 
+def shared_pw_sessions(rec, pi):
+    pw = [b"one-password-for-all", b"maplesyrup"][pi]
+    order = [("sha1", "aes"), ("md5", "aes"), ("md5", "des"), ("sha1", "des"), ("md5", "aes"), ("sha1", "aes"), ("sha1", "des"), ("md5", "des")]
+    if pi:
+        order = order[::-1]
+    out = []
+    for si, (alg, priv) in enumerate(order):
+        cfg = rawdrv.Cfg("v3", user="share%d" % si, engine=bytes([0x80, 0, 0x1f, 0x88, 0x80, pi, si, 3, 3]), auth=alg, akt="password", akm=pw if si % 2 else pw + b"-a",
+                         priv=priv, pkt="password", pkm=pw)
+        s = [{"a": "send", "n": 5}, {"a": "reply-enc"}, {"a": "send", "n": 8}, {"a": "reply-enc"}]
+        a, b = v3hist.run_history(rec, cfg, s, variant=si)
+        out.append((a, b, dict(cfgname="shared-pw:%s-%s" % (alg, priv), script=s, shared=dict(pi=pi, si=si))))
+    return out
+
+
 def run_common(chk, tier, props, label):
     thorough = tier == "thorough"
     # design level
@@ -119,6 +134,13 @@ def run_common(chk, tier, props, label):
         a, b = v3hist.run_history(rec, std[cn], s)
         runs.append((a, b, dict(cfgname=cn, script=[{"a": "send", "n": 5, "times": len(s)}])))
         chk.case((cn, "unanswered-run"))
+    # one password for the authentication and privacy keys of users created back to back under alternating digests with the SAME
+    # cipher (and alternating ciphers under the same digest), in both orders: what a password expands to depends on the user's digest
+    # only - nothing remembered from one user may serve another (RFC 3414 A.2)
+    for pi in (0, 1):
+        for a, b, info in shared_pw_sessions(rec, pi):
+            runs.append((a, b, info))
+            chk.case(("shared-password", pi, info["shared"]["si"], info["cfgname"]), nontrivial=True)
     # public-API histories of privacy users: discovery datagrams lost, enter / refresh retried, then requests
     from checks import c13
     for a, b, info in c13.lost_discovery_histories(rec, [("md5", "des", "password"), ("sha1", "aes", "master"), ("md5", "aes", "password")], thorough, base_idx=300):
@@ -164,7 +186,7 @@ def run(tier):
                 since = 0
         sig = dict(cipher=cipher, ev=ev["ev"], after_unanswered_send=since > 0, got=ev.get("exc") or "sent")
         chk.violation(sig, "%s: %s after %d unanswered send(s): %s" % (info["cfgname"], ev["ev"], since, (ev.get("exc") or "msgData length %d" % len(ev.get("wire", [])))),
-                      dict(cfgname=info["cfgname"], script=info["script"], failing_event_index=idx - a))
+                      dict(cfgname=info["cfgname"], script=info["script"], failing_event_index=idx - a, shared=info.get("shared")))
     chk.sample(dict(kind="history", script=runs[3][2]["script"], cfg=runs[3][2]["cfgname"]))
     chk.assumptions += ["DES-CBC / AES-128-CFB / HMAC / key localisation interpreted by harness/py/vlib/refcrypto.py (FIPS/RFC vectors, openssl cross-check)"]
     return chk.finish()
@@ -180,6 +202,14 @@ def replay(path):
             print("VIOLATION property=%s replay=%s" % (PROP, path))
         return rc
     rec = trace.Recorder("c11-replay")
+    if r.get("shared"):
+        shared_pw_sessions(rec, r["shared"]["pi"])          # the whole sequence: the failure depends on the sessions created before
+        v = trace.validate("TraceSession.tla", trace_cfg(PROPS), rec.close())
+        if v["accepted"] and not v["fails"]:
+            print("replay: accepted")
+            return 0
+        print("VIOLATION property=%s replay=%s" % (PROP, path))
+        return 1
     s = r["script"]
     if s and "times" in s[0]:
         s = [{"a": "send", "n": s[0]["n"]}] * s[0]["times"]
